@@ -37,7 +37,7 @@
         everything else               no condition; inner nodes: all children closed *)
 From Verif Require Import Base.Prelude Model.CharClass Model.FoldD
   Proofs.CharClassRanges Proofs.CharClassProofs Proofs.CharClassElab Proofs.CharClassFold Proofs.CharClassFoldThm
-  Proofs.CharClassCi Proofs.CharClassCi4 Proofs.CharClassCi5.
+  Proofs.CharClassCi Proofs.CharClassCi3 Proofs.CharClassCi4 Proofs.CharClassCi5 Proofs.CharClassCi6.
 (* imported last: Spec.sem (not the class semantics CharClass.sem) is what [sem] means below *)
 From Verif Require Import Model.Tree Model.Spec Model.CaseLink Proofs.CaseProofs Proofs.CaseLinkProofs.
 
@@ -273,7 +273,7 @@ Print Assumptions C20_plain_pairs_in_orbit_sim.
 (* The Set-leaf condition of ci_closed holds for the class the parser builds for ANY bracket expression
    under IgnoreCase (alone or with ECMAScript / RE2), negated classes and nested subtraction included:
    it does not distinguish two runes of one SimpleFold orbit.
-   PARTIAL, exactly as C16_char_in_denote_partial_ignorecase on which it rests:
+   PARTIAL, exactly as C16_char_in_denote_partial_ignorecase_table (the IgnoreCase theorem of C16 on members of good_dom) on which it rests:
      - oracles agree with the generated table on dom_t; the related runes lie in dom_t (orbit_sim);
      - ci_syn_ok: code-point members in good_dom (dom_t without U+00D7, U+0130, U+1E9E), positive
        ASCII-table shorthands / POSIX names, no NEGATED cased-letter category (known finding
